@@ -237,7 +237,7 @@ func retryOne(rep *vh.Report, c lazyCase) (int, bool) {
 			}
 			if round == 1 {
 				failed[ai] = !o.OK()
-				if a.name == "GetDataTable" {
+				if a.name == "GetDataTable" || (a.name == "GetRecords" && (c.typ == "pack.StatSqlPack" || c.typ == "pack.StatHttpcPack")) {
 					first = map[bool]int{true: 1, false: 0}[o.OK()]
 				}
 				// a decode failure: any Get…() accessor; for StatGeneralPack only GetDataTable decides
@@ -307,8 +307,15 @@ func retrySweep(env *vh.Env, rep *vh.Report, rng *vh.Rng, encs []enc) {
 	for ci, c := range cases {
 		first, isTable := retryOne(rep, c)
 		firstOK[ci] = first
-		if isTable && c.inner != nil {
+		switch {
+		case isTable && c.inner != nil:
 			lines = append(lines, "TH "+vh.Hex(c.inner))
+			lineCase = append(lineCase, ci)
+		case first >= 0 && c.typ == "pack.StatSqlPack":
+			lines = append(lines, "RH sql "+vh.Hex(c.inner))
+			lineCase = append(lineCase, ci)
+		case first >= 0 && c.typ == "pack.StatHttpcPack":
+			lines = append(lines, "RH httpc "+vh.Hex(c.inner))
 			lineCase = append(lineCase, ci)
 		}
 	}
@@ -321,12 +328,12 @@ func retrySweep(env *vh.Env, rep *vh.Report, rng *vh.Rng, encs []enc) {
 		for i, o := range outs {
 			c := cases[lineCase[i]]
 			want := strings.HasPrefix(o, "ok")
-			rep.Count("model:table-history:" + strings.Fields(o)[0])
+			rep.Count("model:lazy-history:" + c.typ + ":" + strings.Fields(o)[0])
 			// (compared for intact and truncated tables; for overwritten ones the shared list layout
 			// Layout.decList rejects a negative 3-byte count, which util/list reads as an empty list)
 			if firstOK[lineCase[i]] >= 0 && want != (firstOK[lineCase[i]] == 1) && (c.what == "intact" || strings.HasPrefix(c.what, "truncated")) {
-				rep.Fail("correspondence", "model:StatGeneralTable-outcome",
-					fmt.Sprintf("lazy decode of a StatGeneralPack table (%s): implementation ok=%v, model %s", c.what, firstOK[lineCase[i]] == 1, o),
+				rep.Fail("correspondence", "model:"+c.typ+":lazy-outcome",
+					fmt.Sprintf("lazy decode of the inner payload of %s (%s): implementation ok=%v, model %s", c.typ, c.what, firstOK[lineCase[i]] == 1, o),
 					replayCase{Mode: "retry", Kind: "pack", Typ: c.typ, Hex: vh.Hex(c.outer), What: c.what})
 			}
 		}
@@ -398,8 +405,12 @@ func reuseSweep(env *vh.Env, rep *vh.Report, rng *vh.Rng, encs []enc) {
 		if !vh.Guard(func() { fresh.Read(gio.NewDataInputX(body)); want = bodyBytes(fresh) }).OK() {
 			continue
 		}
-		other := lastOfType[e.typ]
-		lastOfType[e.typ] = body
+		tkey := e.typ
+		if e.kind == "value" { // the reader is chosen by the type byte
+			tkey = fmt.Sprintf("value:%d", e.b[0])
+		}
+		other := lastOfType[tkey]
+		lastOfType[tkey] = body
 		// a failed Read first (this encoding truncated at a few points; another encoding of the same
 		// type truncated), then the valid Read into the same object
 		for ci, cut := range []int{len(body) / 2, len(body) - 1, 1 + rng.Intn(len(body)-1), -1} {
@@ -439,7 +450,7 @@ func reuseSweep(env *vh.Env, rep *vh.Report, rng *vh.Rng, encs []enc) {
 						additive = true
 					}
 				}
-				if additive || reuseMerges[e.typ] {
+				if additive || reuseMerges[tkey] {
 					rep.Count("reuse:read-is-additive:" + e.typ)
 				} else {
 					rep.Fail("property", "reuse-differs:"+e.typ, fmt.Sprintf("%s: after a failed Read (input cut at %d of %d) a valid Read into the same object gives a different object than a fresh decode (re-encodings differ at byte %d)", e.typ, cut, len(body), firstDiff(got, want)), rc)
@@ -452,4 +463,5 @@ func reuseSweep(env *vh.Env, rep *vh.Report, rng *vh.Rng, encs []enc) {
 // types whose Read adds to the tables the object already holds (by construction: `table.Put` in a loop,
 // no reset): reusing the object after a failed Read keeps what the failed Read had put — enumerated,
 // see notes/C04.md
-var reuseMerges = map[string]bool{}
+// (Gen.AllocSites.additiveReaders lists them from the source: MapValue.Read, IntMapValue.Read, …)
+var reuseMerges = map[string]bool{"value:80": true, "value:81": true}
